@@ -17,6 +17,7 @@
 #define ARR(name, fmt, cast) do { size_t i_; printf("\"" #name "\": ["); \
     for (i_ = 0; i_ < sizeof(name)/sizeof(name[0]); i_++) printf("%s" fmt, i_?",":"", (cast)name[i_]); printf("],\n"); } while (0)
 #define C(name) printf("\"" #name "\": %lld,\n", (long long)(name))
+#define CU(name) printf("\"" #name "\": %llu,\n", (unsigned long long)(name))
 
 static void dtable(const char* nm, const ZSTD_seqSymbol* t, unsigned log) {
     unsigned i; const ZSTD_seqSymbol_header* h = (const ZSTD_seqSymbol_header*)t;
@@ -55,7 +56,7 @@ int main(void) {
     C(MIN_CBLOCK_SIZE); C(MIN_SEQUENCES_SIZE); C(MIN_LITERALS_FOR_4_STREAMS); C(WILDCOPY_OVERLENGTH); C(WILDCOPY_VECLEN);
     C(ZSTD_LITBUFFEREXTRASIZE); C(LONGNBSEQ); C(ZSTD_REP_NUM);
     C(ZSTD_CURRENT_MAX); C(ZSTD_WINDOW_START_INDEX); C(ZSTD_CHUNKSIZE_MAX); C(ZSTD_DUBT_UNSORTED_MARK);
-    C(ZSTD_MAX_INPUT_SIZE);
+    CU(ZSTD_MAX_INPUT_SIZE);
     C(HUF_TABLELOG_MAX); C(HUF_TABLELOG_ABSOLUTEMAX); C(HUF_SYMBOLVALUE_MAX); C(HUF_TABLELOG_DEFAULT);
     C(FSE_MAX_TABLELOG); C(FSE_MIN_TABLELOG); C(FSE_TABLELOG_ABSOLUTE_MAX); C(FSE_MAX_SYMBOL_VALUE);
     C(ZSTDMT_NBWORKERS_MAX); C(ZSTDMT_JOBSIZE_MIN); C(ZSTDMT_JOBSIZE_MAX); C(ZSTD_OVERLAPLOG_MIN); C(ZSTD_OVERLAPLOG_MAX);
